@@ -226,48 +226,66 @@ pub fn sat(fs: &[&str]) -> String {
         _ => dash(),
     };
     // lossless value built through the constructors
-    let lc = match &typed {
-        None => dash(),
-        Some(t) => rb(|| {
-            let entries: Vec<ll::Entry> = t
-                .iter()
-                .map(|e| {
-                    ll::Entry::from(e.iter().map(|(n, v)| ll::Relation::new(n, v.clone())).collect::<Vec<_>>())
-                })
-                .collect();
-            ll::Relations::from(entries).satisfied_by(closure)
-        }),
+    // lossless value built through the constructors: answer and tree dump
+    let (lc, lcd) = match &typed {
+        None => (dash(), dash()),
+        Some(t) => {
+            let built = std::panic::catch_unwind(AssertUnwindSafe(|| {
+                let entries: Vec<ll::Entry> = t
+                    .iter()
+                    .map(|e| {
+                        ll::Entry::from(e.iter().map(|(n, v)| ll::Relation::new(n, v.clone())).collect::<Vec<_>>())
+                    })
+                    .collect();
+                ll::Relations::from(entries)
+            }));
+            match built {
+                Err(_) => ("PANIC".to_string(), dash()),
+                Ok(r) => (rb(|| r.satisfied_by(closure)), guard(AssertUnwindSafe(|| r.verif_dump()))),
+            }
+        }
     };
-    // every versioned alternative gets its constraint through Relation::set_version: even
-    // positions start from Relation::simple (insert path), odd ones from Relation::new(name, (=, v))
-    // (replace path)
-    let sv = match &typed {
-        None => dash(),
-        Some(t) => rb(|| {
-            let entries: Vec<ll::Entry> = t
-                .iter()
-                .map(|e| {
-                    ll::Entry::from(
-                        e.iter()
-                            .enumerate()
-                            .map(|(i, (n, v))| match v {
-                                None => ll::Relation::simple(n),
-                                Some((vc, ver)) => {
-                                    let mut r = if i % 2 == 1 {
-                                        ll::Relation::new(n, Some((VersionConstraint::Equal, ver.clone())))
-                                    } else {
-                                        ll::Relation::simple(n)
-                                    };
-                                    r.set_version(Some((vc.clone(), ver.clone())));
-                                    r
-                                }
-                            })
-                            .collect::<Vec<_>>(),
-                    )
-                })
-                .collect();
-            ll::Relations::from(entries).satisfied_by(closure)
-        }),
+    // every versioned alternative gets its constraint through Relation::set_version, starting from a
+    // relation chosen by its position in the entry (mod 4): Relation::simple (insert after the name),
+    // Relation::new(name, (=, v)) (replace), simple + set_archqual("any") (insert after the
+    // qualifier), "name:any [amd64] <!nocheck>" parsed (the same on a parsed relation)
+    let (sv, svd) = match &typed {
+        None => (dash(), dash()),
+        Some(t) => {
+            let built = std::panic::catch_unwind(AssertUnwindSafe(|| -> Option<ll::Relations> {
+                let mut entries: Vec<ll::Entry> = vec![];
+                for e in t.iter() {
+                    let mut rels: Vec<ll::Relation> = vec![];
+                    for (i, (n, v)) in e.iter().enumerate() {
+                        let r = match v {
+                            None => ll::Relation::simple(n),
+                            Some((vc, ver)) => {
+                                let mut r = match i % 4 {
+                                    0 => ll::Relation::simple(n),
+                                    1 => ll::Relation::new(n, Some((VersionConstraint::Equal, ver.clone()))),
+                                    2 => {
+                                        let mut r = ll::Relation::simple(n);
+                                        r.set_archqual("any");
+                                        r
+                                    }
+                                    _ => format!("{}:any [amd64] <!nocheck>", n).parse::<ll::Relation>().ok()?,
+                                };
+                                r.set_version(Some((vc.clone(), ver.clone())));
+                                r
+                            }
+                        };
+                        rels.push(r);
+                    }
+                    entries.push(ll::Entry::from(rels));
+                }
+                Some(ll::Relations::from(entries))
+            }));
+            match built {
+                Err(_) => ("PANIC".to_string(), dash()),
+                Ok(None) => ("ERR".to_string(), dash()),
+                Ok(Some(r)) => (rb(|| r.satisfied_by(closure)), guard(AssertUnwindSafe(|| r.verif_dump()))),
+            }
+        }
     };
     let yc = match &lossy_c {
         None => dash(),
@@ -303,9 +321,9 @@ pub fn sat(fs: &[&str]) -> String {
             .collect()
     };
     format!(
-        "ty={}|ll={}|lr={}|ne={}|le={}|ly={}|rt={}|lc={}|yc={}|ym={}|yp={}|sv={}|lk={}",
+        "ty={}|ll={}|lr={}|ne={}|le={}|ly={}|rt={}|lc={}|yc={}|ym={}|yp={}|sv={}|lcd={}|svd={}|lk={}",
         if typed.is_some() { "1" } else { "0" },
-        ll, lr, ne, le, ly, rt, lc, yc, ym, yp, sv, lk.join(",")
+        ll, lr, ne, le, ly, rt, lc, yc, ym, yp, sv, lcd, svd, lk.join(",")
     )
 }
 
